@@ -52,7 +52,7 @@ def spec_strategy():
 class Refinement(Sub):
     name = 'refinement'
     doc = 'closed-form 3-D Fourier pairs on a dr, dr/2, dr/4 family: bound, halving ratio, Richardson, k->0 volume integral; forward and backward separately'
-    budget = {'quick': 600, 'thorough': 32000}
+    budget = {'quick': 600, 'thorough': 400000}
 
     def strategy(self, tier):
         return spec_strategy()
